@@ -33,10 +33,13 @@ import (
 	"sync"
 	"testing"
 
+	"github.com/algorand/avm-abi/apps"
 	"github.com/algorand/go-algorand/config"
 	"github.com/algorand/go-algorand/crypto/merkletrie"
 	"github.com/algorand/go-algorand/data/basics"
 	"github.com/algorand/go-algorand/data/bookkeeping"
+	"github.com/algorand/go-algorand/data/transactions"
+	"github.com/algorand/go-algorand/data/txntest"
 	"github.com/algorand/go-algorand/ledger/encoded"
 	"github.com/algorand/go-algorand/ledger/ledgercore"
 	"github.com/algorand/go-algorand/ledger/store/trackerdb"
@@ -688,18 +691,6 @@ func c16Mutations(alt *c16Doc) []c16Mut {
 			}
 			return fmt.Sprintf("box (%x | %x) -> (%x | %x)", oldK, oldV, kv.Key, kv.Value), "box", true
 		}},
-		{class: "kv-empty-vs-nil-value", apply: func(d *c16Doc, r *kit.Rand) (string, string, bool) {
-			kv, ok := pickKV(d, r, func(kv encoded.KVRecordV6) bool { return len(kv.Value) == 0 })
-			if !ok {
-				return "", "box", false
-			}
-			if kv.Value == nil {
-				kv.Value = []byte{}
-			} else {
-				kv.Value = nil
-			}
-			return fmt.Sprintf("box %x empty value nil<->[]", kv.Key), "box", true
-		}},
 		// --- dropped / duplicated / moved records
 		drop("acct"), drop("kv"), drop("oa"), drop("orp"),
 		dupOrMove("acct", false, false), dupOrMove("acct", false, true), dupOrMove("kv", false, false), dupOrMove("kv", false, true),
@@ -1259,6 +1250,23 @@ func c16CompareModel(c *kit.Ctx, l *Ledger, m *hlModel, u *hlUniverse, bal, top 
 			}
 			if okw {
 				c.Count("c16.records_compared.box", 1)
+				if len(want) == 0 {
+					c.Count("c16.records_compared.empty_box", 1)
+				}
+			}
+		}
+		// box listings per application
+		for _, app := range c16Apps(m) {
+			prefix := apps.MakeBoxKey(uint64(app), "")
+			want := m.kvKeys(rr, prefix)
+			got, err := l.LookupKeysByPrefix(rr, prefix, 1000)
+			sort.Strings(got)
+			c.Eval(1)
+			if err != nil || fmt.Sprint(got) != fmt.Sprint(want) {
+				mis("round %d LookupKeysByPrefix(app %d): got %x err %v want %x", rr, app, got, err, want)
+			}
+			if len(want) > 0 {
+				c.Count("c16.records_compared.box_listing", 1)
 			}
 		}
 		wantT := m.totals(rr)
@@ -1297,6 +1305,16 @@ func c16CompareModel(c *kit.Ctx, l *Ledger, m *hlModel, u *hlUniverse, bal, top 
 	return bad
 }
 
+// c16Apps lists every application index that ever existed, sorted.
+func c16Apps(m *hlModel) []basics.AppIndex {
+	var out []basics.AppIndex
+	for _, idx := range m.appAccounts() {
+		out = append(out, idx)
+	}
+	sort.Slice(out, func(i, j int) bool { return out[i] < out[j] })
+	return out
+}
+
 func c16AssetStr(r ledgercore.AssetResource) string {
 	s := ""
 	if r.AssetParams != nil {
@@ -1306,6 +1324,35 @@ func c16AssetStr(r ledgercore.AssetResource) string {
 		s += fmt.Sprintf("holding=%+v", *r.AssetHolding)
 	}
 	return s
+}
+
+// c16Step is hlSim.step plus, on request, a few scripted groups that make sure the state contains
+// what the campaign needs whatever the PRNG chose: a funded application with an empty-valued box,
+// a box with a multi-byte name and a box with a value.
+func c16Step(a *hlSim, scripted bool) {
+	a.lastBlockGroups = a.lastBlockGroups[:0]
+	ev, err := a.startEval()
+	if err != nil {
+		a.c.Harness("StartEvaluator: %v", err)
+	}
+	for i, n := 0, a.g.groupsPerBlock(); i < n; i++ {
+		a.g.offerRandom(ev)
+	}
+	if live := a.g.liveApps(); scripted && len(live) > 0 {
+		app := live[a.r.Intn(len(live))].idx
+		box := func(name string, val []byte) *txntest.Txn {
+			return &txntest.Txn{Type: protocol.ApplicationCallTx, Sender: a.g.funded(), ApplicationID: app, Note: a.g.nextNote(),
+				ApplicationArgs: [][]byte{[]byte("bput"), []byte(name), val}, Boxes: []transactions.BoxRef{{Name: []byte(name)}}}
+		}
+		a.offer(ev, "scripted-fund", &txntest.Txn{Type: protocol.PaymentTx, Sender: a.g.funded(), Receiver: app.Address(), Amount: 2_000_000, Note: a.g.nextNote()})
+		a.offer(ev, "scripted-box", box(fmt.Sprintf("empty%d", ev.Round()%3), []byte{}))
+		a.offer(ev, "scripted-box", box("ab", []byte("c")))
+		a.offer(ev, "scripted-box", box(fmt.Sprintf("name-%d", ev.Round()%4), a.r.Bytes(a.r.Range(1, 40))))
+	}
+	if _, err := a.finishBlock(ev); err != nil {
+		a.c.Violation("generated-block-rejected", map[string]any{"round": a.m.latest + 1, "error": err.Error(), "config": a.cfg.String(), "trace": a.traceTail(30)})
+		a.c.Harness("cannot continue after %v", err)
+	}
 }
 
 // ---- the test ------------------------------------------------------------------------------------------
@@ -1364,7 +1411,7 @@ func TestVerifC16(t *testing.T) {
 			}
 		}
 		for i := 0; i < blocks; i++ {
-			a.step()
+			c16Step(a, i%5 == 4)
 			sample()
 			switch r.Pick([]int{40, 25, 25, 4, 3, 3}) {
 			case 1:
@@ -1633,6 +1680,8 @@ func TestVerifC16(t *testing.T) {
 	c.Require("c16.restores_of_genuine_files", 4)
 	c.Require("c16.records_compared.account", 100)
 	c.Require("c16.records_compared.box", 5)
+	c.Require("c16.records_compared.empty_box", 1)
+	c.Require("c16.records_compared.box_listing", 1)
 	c.Require("c16.records_compared.asset", 10)
 	c.Require("c16.records_compared.app_global_state", 1)
 	c.Require("c16.records_compared.app_local", 1)
